@@ -122,6 +122,13 @@ def run(ctx):
     reqs.append(f"buildrt type_int/64/1 begin_function/1/-/0/2 function_parameter/1 begin_block/- switch/3/9/{l64}:Q4294967296=10 end_function")
     reqs.append(f"buildrt type_int/32/0 begin_function/1/-/0/2 begin_block/- i_add/1/-/7/8 switch/4/9/{l32}:5=10,{l32}:4294967295=11,{l32}:0=12 end_function")
     reqs.append(f"buildrt type_int/16/0 begin_function/1/-/0/2 begin_block/- undef/1/- switch/4/9/{l32}:65535=10 end_function")
+    # every supported literal width as the type of constants, spec constants and a switch selector (ids: type 1, constants 2 and 3,
+    # function 4, label 5, selector 6)
+    for w, sign in ((8, 0), (8, 1), (16, 1), (32, 0)):
+        top = (1 << w) - 1
+        reqs.append(f"buildrt type_int/{w}/{sign} constant_bit32/1/{top} spec_constant_bit32/1/1 begin_function/1/-/0/2 begin_block/- undef/1/- switch/6/9/{l32}:{top}=10,{l32}:0=11 end_function")
+    for w in (16, 32):
+        reqs.append(f"buildrt type_float/{w}/- constant_bit32/1/1065353216 spec_constant_bit32/1/0 begin_function/1/-/0/2 begin_block/- ret end_function")
     n_single = len(reqs)
     for _ in range(300 if ctx.tier == "quick" else 5000):
         reqs.append("buildrt " + " ".join(g.history(size=rnd.choice([0.5, 1, 2]), skip=skip)))
